@@ -1,6 +1,7 @@
 SPECIFICATION Spec
 CONSTANTS
   MaxMut = 1
+  Full = TRUE
 INVARIANT Disjoint
 INVARIANT Complete
 INVARIANT AllFields
